@@ -302,6 +302,22 @@ def run(ctx):
             # the second parse is only tried when the first failed
             t1 = kit.ok_target_of_call(f, calls[0][0])
             ok = t1 is not None and calls[1][0] not in f.reachable(t1)
+        if not ok and tys == ["i16"] and rad == [radix]:
+            # combinator form: `i16::from_str_radix(..).map(..).or_else(|_| u16::from_str_radix(..))` - the fallback parse lives in a
+            # closure that Result::or_else only calls on Err
+            for b2, t2, c2 in f.calls():
+                if not (c2 and c2.endswith("Result::<T, E>::or_else")):
+                    continue
+                recv = f.expr(t2["args"][0], 10)
+                first_in_recv = any(x[0] == "call" and str(x[1]).endswith("<impl i16>::from_str_radix") for x in expr_walk(recv))
+                for cl in t2["f"].get("closures", []):
+                    g = prog.fns.get(cl[3:] if cl.startswith("fn:") else cl)
+                    if g is None:
+                        continue
+                    inner = [(tt, cc) for bb, tt, cc in g.calls() if cc and cc.endswith("from_str_radix")]
+                    if first_in_recv and len(inner) == 1 and inner[0][1].endswith("<impl u16>::from_str_radix") and const_int(inner[0][0]["args"][1]) == radix:
+                        ok = True
+                        tys, rad = ["i16", "u16 (or_else)"], [radix, radix]
         ctx.oblig(ok, {nm: list(zip(tys, rad))}, "i16 then (on failure) u16, same radix")
         if not ok:
             ctx.violation("lexer-range|%s" % nm, f.file_line(), "`%s` parses its digits as %s with radix %s (expected i16 first, then u16, radix %d)" % (nm, tys, rad, radix))
